@@ -42,7 +42,9 @@ def _is_zero_const(e: ast.AST) -> bool:
 class SignInterp:
     """Evaluates a function body for ONE element: names hold a sign (int), a bool, or the token 'vec' for things we do not model."""
 
-    def __init__(self, fn: FunctionInfo, lambdas: dict[str, int], area_names: set[str], scalar_mode: bool):
+    def __init__(self, fn: FunctionInfo, lambdas: dict[str, int], area_names: set[str], scalar_mode: bool, prog: Program | None = None, depth: int = 0):
+        self.prog = prog
+        self.depth = depth
         self.fn = fn
         self.lambdas = lambdas  # variable name -> index 0..2
         self.area_names = area_names
@@ -65,6 +67,27 @@ class SignInterp:
             return ZERO
         if isinstance(e, ast.BinOp) and isinstance(e.op, ast.Mult):
             return self.sign(e.left) * self.sign(e.right)
+        if isinstance(e, ast.Call) and getattr(e.func, "attr", getattr(e.func, "id", "")) == "sign" and len(e.args) == 1:
+            return self.sign(e.args[0])
+        if isinstance(e, ast.BinOp) and isinstance(e.op, ast.Add):
+            terms: list[ast.AST] = []
+
+            def flat(x):
+                if isinstance(x, ast.BinOp) and isinstance(x.op, ast.Add):
+                    flat(x.left)
+                    flat(x.right)
+                else:
+                    terms.append(x)
+
+            flat(e)
+            names = [t.id for t in terms if isinstance(t, ast.Name)]
+            if len(terms) == 3 and len(names) == 3 and {self.lambdas.get(nm) for nm in names} == {0, 1, 2}:
+                return self.area  # the sum of the three barycentric determinants
+            sg = {self.sign(t) for t in terms}
+            if len(sg) == 1:
+                return sg.pop()
+            if sg <= {ZERO, POS} or sg <= {ZERO, NEG}:
+                return POS if POS in sg else NEG
         raise Unsupported(f"sign of `{ast.unparse(e)[:40]}`")
 
     def boolean(self, e: ast.AST) -> bool:
@@ -119,7 +142,53 @@ class SignInterp:
                 return self.boolean(e.args[0])
             if name == "where" and len(e.args) == 3:
                 return self.boolean(e.args[1]) if self.boolean(e.args[0]) else self.boolean(e.args[2])
+            v = self.call_helper(e)
+            if isinstance(v, bool):
+                return v
         raise Unsupported(f"truth value of `{ast.unparse(e)[:50]}`")
+
+    def value(self, e: ast.AST):
+        """a sign, a truth value or a list of them"""
+        if isinstance(e, ast.Name) and isinstance(self.env.get(e.id), list):
+            return self.env[e.id]
+        if isinstance(e, (ast.List, ast.Tuple)):
+            return [self.value(x) for x in e.elts]
+        try:
+            return self.boolean(e)
+        except Unsupported:
+            return self.sign(e)
+
+    def call_helper(self, e: ast.Call):
+        """interprets a private helper of the package on the abstract values of the arguments (two levels deep at most)"""
+        if self.prog is None or self.depth >= 2 or not isinstance(e.func, ast.Name) or e.keywords:
+            return None
+        q = self.prog.resolve_name(self.fn.module, e.func.id)
+        h = self.prog.functions.get(q) if q else None
+        if h is None:
+            return None
+        args = []
+        for a in e.args:
+            if isinstance(a, ast.Starred):
+                v = self.value(a.value)
+                if not isinstance(v, list):
+                    raise Unsupported("starred argument")
+                args += v
+            else:
+                args.append(self.value(a))
+        sub = SignInterp(h, {}, set(), self.scalar_mode, self.prog, self.depth + 1)
+        sub.inputs, sub.area = self.inputs, self.area
+        pa = h.node.args
+        names = [p.arg for p in pa.posonlyargs + pa.args]
+        if len(args) < len(names) or (len(args) > len(names) and pa.vararg is None):
+            raise Unsupported(f"arguments of {h.name}")
+        sub.env = dict(zip(names, args))
+        if pa.vararg is not None:
+            sub.env[pa.vararg.arg] = list(args[len(names):])
+        try:
+            sub.block(h.node.body)
+        except _Return as r:
+            return r.value
+        raise Unsupported(f"{h.name} returns nothing")
 
     # ------------------------------------------------------------------ statements
     def run(self, inputs: tuple[int, int, int], area: int) -> bool:
@@ -159,7 +228,22 @@ class SignInterp:
                 except Unsupported:
                     self.env[t.id] = "vec"  # data we do not model (rows of the vertex array ...); using it later is Unsupported
                     return
-            if isinstance(t, ast.Tuple):
+            if isinstance(t, (ast.Tuple, ast.List)):
+                src = self.env.get(st.value.id) if isinstance(st.value, ast.Name) else None
+                if isinstance(src, list):
+                    # first, *rest = values
+                    star = [i for i, x in enumerate(t.elts) if isinstance(x, ast.Starred)]
+                    if len(star) <= 1:
+                        k = star[0] if star else None
+                        n_after = len(t.elts) - k - 1 if k is not None else 0
+                        if (k is None and len(src) == len(t.elts)) or (k is not None and len(src) >= len(t.elts) - 1):
+                            for i, x in enumerate(t.elts):
+                                if isinstance(x, ast.Starred) and isinstance(x.value, ast.Name):
+                                    self.env[x.value.id] = src[k:len(src) - n_after]
+                                elif isinstance(x, ast.Name):
+                                    self.env[x.id] = src[i] if (k is None or i < k) else src[len(src) - (len(t.elts) - i)]
+                            return
+                    raise Unsupported("unpacking")
                 for x in t.elts:
                     if isinstance(x, ast.Name):
                         self.env[x.id] = "vec"
@@ -190,6 +274,14 @@ class SignInterp:
                 self.block(st.body)
             else:
                 self.block(st.orelse)
+            return
+        if isinstance(st, ast.For) and isinstance(st.target, ast.Name) and not st.orelse:
+            seq = self.value(st.iter)
+            if not isinstance(seq, list):
+                raise Unsupported("loop over something that is not a list of the modelled values")
+            for v in seq:
+                self.env[st.target.id] = v
+                self.block(st.body)
             return
         if isinstance(st, ast.Return) and st.value is not None:
             raise _Return(self.boolean(st.value))
@@ -271,12 +363,14 @@ def rule_triangle(run: Run, prog: Program) -> int:
     wrong: list[str] = []
     unsupported: str | None = None
     for scalar_mode in (False, True):
-        it = SignInterp(fn, lambdas, area_names, scalar_mode)
+        it = SignInterp(fn, lambdas, area_names, scalar_mode, prog)
         for s in itertools.product((NEG, ZERO, POS), repeat=3):
             nz = {x for x in s if x != ZERO}
             if not nz:
                 continue  # the query point is no finite point of the plane of a non-degenerate triangle
-            areas = list(nz) if len(nz) == 1 else [NEG, POS]
+            # the sum has the sign of the entries when they agree; when they disagree it can be anything - also exactly 0, which is the
+            # case of a point at infinity (its three determinants add up to 0)
+            areas = list(nz) if len(nz) == 1 else [NEG, ZERO, POS]
             expected = len(nz) == 1
             for a in areas:
                 n += 1
@@ -286,7 +380,7 @@ def rule_triangle(run: Run, prog: Program) -> int:
                     unsupported = str(e)
                     break
                 if got != expected:
-                    orient = "counter-clockwise" if a == POS else "clockwise"
+                    orient = "counter-clockwise" if a == POS else ("clockwise" if a == NEG else "sum exactly 0: a point at infinity,")
                     where = "a vertex" if s.count(ZERO) == 2 else ("an edge" if s.count(ZERO) == 1 else ("the interior" if expected else "outside"))
                     wrong.append(f"(l1,l2,l3)=({','.join(SIGN_NAME[x] for x in s)}), sum {SIGN_NAME[a]} [{orient} triangle, point on {where}"
                                  f"{', vectorised path' if not scalar_mode else ', scalar path'}]: returns {got}, closed triangle says {expected}")
@@ -461,7 +555,18 @@ def rule_polygon(run: Run, prog: Program) -> int:
     region = prog.private_helpers(fn)
     n = 0
     parity_seen = False
+    # helpers whose whole body is a parity reduction (odd_count(mask)): a call to them is the parity step of the caller
+    q_helpers: dict[str, bool] = {}
+    for h in region:
+        rets_h = [r for r in ast.walk(h.node) if isinstance(r, ast.Return) and r.value is not None]
+        if len(rets_h) == 1 and len([s_ for s_ in h.node.body if not (isinstance(s_, ast.Expr) and isinstance(getattr(s_, "value", None), ast.Constant))]) == 1:
+            v_ = rets_h[0].value
+            if any((isinstance(x, ast.BinOp) and isinstance(x.op, ast.Mod)) or (
+                    isinstance(x, ast.Call) and isinstance(x.func, ast.Attribute) and x.func.attr == "reduce" and "xor" in ast.unparse(x.func.value)) for x in ast.walk(v_)):
+                q_helpers[h.name] = True
     for g in region:
+        if q_helpers.get(g.name):
+            continue
         env = _single_assign_env(g)
         gps = g.params()
         point = gps[1].arg if len(gps) > 1 else None
@@ -480,8 +585,19 @@ def rule_polygon(run: Run, prog: Program) -> int:
             return False
 
         ret_names = {r.value.id for r in ast.walk(g.node) if isinstance(r, ast.Return) and isinstance(r.value, ast.Name)}
+        def is_parity(x: ast.AST) -> bool:
+            if isinstance(x, ast.BinOp) and isinstance(x.op, ast.Mod) and isinstance(x.right, ast.Constant) and x.right.value == 2:
+                return True
+            if isinstance(x, ast.BinOp) and isinstance(x.op, ast.BitAnd) and isinstance(x.right, ast.Constant) and x.right.value == 1:
+                return True
+            if isinstance(x, ast.Call) and isinstance(x.func, ast.Attribute) and x.func.attr == "reduce" and "xor" in ast.unparse(x.func.value):
+                return True
+            if isinstance(x, ast.Call) and isinstance(x.func, ast.Name) and q_helpers.get(x.func.id):
+                return True
+            return False
+
         parity_lines = [st for st in ast.walk(g.node) if isinstance(st, (ast.Assign, ast.AugAssign, ast.Return)) and st.value is not None and any(
-            isinstance(x, ast.BinOp) and isinstance(x.op, ast.Mod) for x in ast.walk(st.value))]
+            is_parity(x) for x in ast.walk(st.value))]
         if parity_lines:
             parity_seen = True
             n += 1
